@@ -58,6 +58,40 @@ def probe_desc(g):
     return '\n'.join(lines) + '\n'
 
 
+IDENTITY = [
+    # (description, text, pairs of paths into the result that must be one object)
+    ('start = [Expect(Items), Items]\nItems = /[ab]/*\n', 'abba', [((0,), (1,))]),
+    ('start = [Expect(P), P, Expect(P)?]\nP = [W, W?]\nW = /[ab]/\n', 'ab', [((0,), (1,))]),
+    ('class D {\n    peek: Expect(Items)\n    first: (Items << ";") | (Items << ".")\n}\nItems = /[ab]/ // ","\nstart = D\n',
+     'a,b,a.', [(('peek',), ('first',))]),
+    ('start = [Expect(K), K]\nclass K {\n    w: /[ab]+/\n    rest: ("," >> /[ab]+/)*\n}\n', 'ab,b,a',
+     [((0,), (1,)), ((0, 'rest'), (1, 'rest'))]),
+    ('start = [Expect(W), W]\nW = /[ab]+/ |> `lambda s: s.upper()`\n', 'abab', [((0,), (1,))]),
+]
+
+
+def identity_worker(case):
+    import sourcer
+    out = []
+    for desc, text, pairs in IDENTITY:
+        try:
+            mod = sourcer.Grammar(desc)
+            v = mod.parse(text)
+
+            def at(path):
+                x = v
+                for k in path:
+                    x = getattr(x, k) if isinstance(k, str) else x[k]
+                return x
+            out.append([[at(a) is at(b), type(at(a)).__name__] for a, b in pairs])
+        except BaseException as e:  # noqa
+            out.append(['exc', type(e).__name__, str(e)[:150]])
+    return {'id': case['id'], 'desc': None, 'build': ['ok'], 'obs': out}
+
+
+engine.register('identity_worker', identity_worker)
+
+
 def run(chk):
     chk.rule = ('cases = parse calls whose driver steps are observed; (1) every abstract program of MC_Packrat (4 rules, '
                 '<= 3 requests per body) is realised as a grammar and the real driver must produce exactly the event '
@@ -158,6 +192,14 @@ def run(chk):
                        'nrules': nr})
         tcases.append({'id': len(tcases), 'desc': probed, 'cfg': {'probes': True, 'nrules': nr, 'posprobe': with_ignore},
                        'runs': [['start', T(x), 0] for x in inputs], 'nrules': nr})
+    # a derived grammar: the inherited rule Number is reached as super.Number and as Number at the same position
+    dbase = ('grammar vg_c07_base\n' + HEAD + 'start = Stmt+\nStmt = Print | Halt\nPrint = [Number, "?"]\nHalt = ["h", Number?]\n'
+             'Number = ' + (PR % 'Number') + '/[0-9]+/\n')
+    dder = ('grammar vg_c07_der extends vg_c07_base\nStmt = Sleep | Print | Twice | Halt\nSleep = [super.Number, "!"]\n'
+            'Twice = [Expect(Number), super.Number, "#"]\n')
+    tcases.append({'id': len(tcases), 'desc': dder,
+                   'cfg': {'probes': True, 'nrules': 8, 'pre': [dbase], 'installed': ['vg_c07_base', 'vg_c07_der']},
+                   'runs': [['start', T(x), 0] for x in ('12?', '12!', '7#', '12?3!h4#', 'h', '5')], 'nrules': 8})
     # long inputs (memo tables with tens of thousands of entries), validated in projection on the rare rules
     longg = ('start = [Header, Items, "."] | [Header, Items, ";"] | [Header, Items]\n'
              'Header = "h:"\nItems = Item*\nItem = "a" | "b"\n')
@@ -181,7 +223,10 @@ def run(chk):
     reclist = []
     for c in tcases:
         rec = recs[c['id']]
+        if rec['build'][0] == 'harness-error':
+            raise MachineryFailure('trace recording failed: %r' % (rec['build'],))
         if rec['build'][0] != 'ok':
+            chk.notes['traced_grammars_not_built'] = chk.notes.get('traced_grammars_not_built', 0) + 1
             continue     # construction problems are C01's business
         if (c.get('cfg') or {}).get('posprobe') and any(o[0] == 'exc' and o[1] == 'NameError' for o in rec['obs']):
             chk.notes['posprobe'] = 'the position register is not called _pos any more: ignore-grammar probe family skipped'
@@ -195,6 +240,20 @@ def run(chk):
         chk.violation('driver trace rejected by Trace_Packrat at event %d: %s %s | grammar: %s'
                       % (consumed + 1, json_short(bad), inv or '', rec['desc'].replace('\n', ' ; ')[:500]),
                       {'desc': rec['desc'], 'rejected_event': bad, 'events_before': rec['events'][max(0, consumed - 6):consumed]})
+    # (C3) "every later reference receives the same value object": references to one rule at one position, whose value
+    # is a list / an instance / a string built by inline Python, are the same object in the result
+    irec = engine.run_real([{'id': 0}], fn='identity_worker', batch=1)[0]
+    for (desc, text, pairs), res in zip(IDENTITY, irec['obs']):
+        chk.traces += 1
+        chk.count(['identity', desc, text], True)
+        if res and res[0] == 'exc':
+            chk.violation('identity family: parse raised %s | %s' % (res[1:], desc.replace('\n', ' ; ')), {'desc': desc, 'text': text})
+            continue
+        for (a, b), (same, tname) in zip(pairs, res):
+            if not same:
+                chk.violation('two references to the same rule at the same position received different value objects (%s) '
+                              '| paths %s and %s | text %r | grammar: %s' % (tname, list(a), list(b), text, desc.replace('\n', ' ; ')),
+                              {'desc': desc, 'text': text, 'paths': [list(a), list(b)]})
     # (C1') hook-free probes
     pcases = []
     for n in depths[:4]:
@@ -207,7 +266,12 @@ def run(chk):
         pcases.append({'id': i, 'desc': probe_desc(g), 'cfg': {'probes': True, 'probes_only': True, 'nrules': len(g['rules'])},
                        'runs': c['runs']})
     precs = engine.run_real(pcases, fn='record_case', hooks=True)
+    for c in pcases:
+        if precs[c['id']]['build'][0] == 'harness-error':
+            raise MachineryFailure('probe recording failed: %r' % (precs[c['id']]['build'],))
     plist = [precs[c['id']] for c in pcases if precs[c['id']]['build'][0] == 'ok']
+    chk.notes['probe_grammars_validated'] = len(plist)
+    chk.notes['probe_grammars_not_built'] = len(pcases) - len(plist)
     chk.notes['probe_events_validated'] = sum(len(r['events']) for r in plist)
     chk.traces += sum(1 for r in plist for e in r['events'] if e['ev'] == 'pbegin')
     for rec, consumed, bad, inv in tracecheck.validate_cases(chk, plist, 'probes'):
